@@ -15,7 +15,6 @@ import (
 	"strings"
 
 	"golang.org/x/tools/go/ssa"
-
 )
 
 func runFullReadAs(c *Ctx, P string) {
